@@ -201,6 +201,19 @@ def gen_cbc_queries(c, scale):
     return Q, meta
 
 
+def gen_cbc_misuse(c):
+    """the malformed stream for cbc: wrong key / IV sizes, missing key / IV"""
+    rng = c.rng
+    L = []
+    for bits in (128, 192, 256):
+        for kl in (None, 0, 1, 15, 16, 17, 23, 24, 25, 31, 32, 33, 64):
+            for il in (None, 0, 1, 15, 16, 17, 32):
+                k = "none" if kl is None else hexs(rbytes(rng, kl))
+                v = "none" if il is None else hexs(rbytes(rng, il))
+                L.append(f"cbcuse {bits} {k} {v}")
+    return L
+
+
 def py_ref(line):
     """python hashlib/hmac answer for a dg/hmac line (third reference next to libcrypto called from C++)"""
     w = line.split()
@@ -227,7 +240,7 @@ def main():
     c.rule = ("cases = protocol lines: (dg|hmac) x {md5,sha1,sha224,sha256,sha384,sha512} x message lengths 0..2B+2 and every "
               "block boundary -9..+2 up to 4 KiB x one-shot / random chunkings / all cuts of 1..7-byte messages / all 2-cuts and "
               "sampled 3-cuts around B and 2B x keys of 0..3 blocks x 1..4 messages per object; key text: all 1-byte strings, "
-              "edge-byte pairs, random valid/invalid hex, key files; cbc: random call sequences for aes-128/192/256. "
+              "edge-byte pairs, random valid/invalid hex, key files; cbc: random call sequences for aes-128/192/256, wrong/missing key and IV sizes. "
               "non-trivial = a digest/hmac line whose message crosses at least one block boundary or is fed in >= 2 appends or "
               "reuses the object, a key line that is rejected or yields >= 1 byte, a cbc line with >= 2 calls; distinct = distinct lines")
     c.trusted += [
@@ -274,7 +287,7 @@ def main():
             c.broke("cbc oracle (raw AES answers from libcrypto)", err)
             resolved, meta = [], []
         cbc_meta = {l: p for l, p in zip(resolved, meta)}
-        cases = corpus + hash_cases + key_cases + resolved
+        cases = corpus + hash_cases + key_cases + resolved + gen_cbc_misuse(c)
     cases = list(dict.fromkeys(cases))
 
     big = [l for l in cases if l.startswith("big ")]
@@ -289,12 +302,14 @@ def main():
             return cs if (total >= 64 or len(body) >= 2) else None
         if w[0] in ("key", "keyfile"):
             return cs if o != "ok -" else None
+        if w[0] == "cbcuse":
+            return cs if o != "ok" else None
         if w[0] == "cbc":
             return cs if len(w) >= 9 else None
         return None
 
     # ---- all runs of the real code / the model / libcrypto in parallel
-    ref_cases = [l for l in main_cases if l.split()[0] not in ("key", "keyfile")] + ext
+    ref_cases = [l for l in main_cases if l.split()[0] not in ("key", "keyfile", "cbcuse")] + ext
     with ThreadPoolExecutor(max_workers=8) as ex:
         f_i = ex.submit(c.run_lines, hbin, main_cases)
         f_m = ex.submit(c.run_lines, model, main_cases)
@@ -369,6 +384,11 @@ def main():
                         jlines.append(jl); jcases.append(l)
         elif w[0] == "key":
             jlines.append(f"J key {w[1]} {o}"); jcases.append(l)
+        elif w[0] == "cbcuse":
+            # property side: a cbc object works iff it was given a key of bits/8 bytes and a 16-byte IV
+            good = w[2] != "none" and w[3] != "none" and len(w[2]) == int(w[1]) // 4 and len(w[3]) == 32
+            if (o == "ok") != good or not (o == "ok" or o.startswith("err-")):
+                bad.append((l, f"cbc accepted/rejected the wrong key or IV size: {o}"))
         elif w[0] == "cbc":
             if ref_of.get(l) is not None and o != ref_of[l]:
                 bad.append((l, f"differs from CBC over raw libcrypto AES: impl={o} ref={ref_of[l]}"))
